@@ -34,7 +34,15 @@ import (
 // cancels when an error was reported, and on the way out cancels, drains the output with context.Background and
 // waits for the workers.
 //
-// Forked per path: which inputs carry a message; the event (k-th Interpret call or k-th row handed out by an
+// Obligations: both Execute calls return and no goroutine stays blocked (engine: deadlock / leak); no runtime panic
+// (engine) and nothing on Core.Errors but an injected interpreter panic; no listener is closed while a cyclical
+// message is unreleased or a non-cyclical input still holds a message; every message created is released exactly
+// once; the output has no duplicates, only derivable values, and - when nothing was cancelled - all of them.
+//
+// Params: graph=chain|ring|fan, chunk, procs, cap, cancel / hold / panic / stop (ranges of the choices below, 0 = off),
+// spin (yields before a held goroutine is released), sched (vt.SchedChoices), evmax (probe for the number of events).
+//
+// Forked per path: which inputs carry a message (A: v0; B: v0 or v1); the event (k-th Interpret call or k-th row handed out by an
 // interpreter result) at which the request is cancelled; the event at which the processing goroutine is HELD until
 // every other goroutine has run as far as it can (a slow datastore read that does not observe ctx); the Interpret
 // call that panics; optionally the consumer stops after j messages.
@@ -52,6 +60,7 @@ type verifB21cEnv struct {
 	canceled bool
 	held     bool
 	panicked bool
+	spin     int
 
 	mu        sync.Mutex // natively the counters below are touched from several goroutines
 	created   int
@@ -95,12 +104,22 @@ func (h *verifB21cEnv) event() {
 	}
 }
 
-// hold parks the calling goroutine until all the others have run as far as they can: under the engine the
-// releasing goroutine is the youngest one and the scheduler prefers older runnable goroutines; natively it sleeps.
+// hold parks the calling goroutine until the others have run as far as they can: under the engine the releasing
+// goroutine is the youngest one, the scheduler prefers older runnable goroutines, and it yields `spin` times before
+// it opens the gate; natively it sleeps.
 func (h *verifB21cEnv) hold() {
 	gate := make(chan struct{})
+	never := make(chan struct{})
 	go func() {
-		if !vt.Symbolic() {
+		if vt.Symbolic() {
+			// every select is a scheduling point of the engine (round-robin): give the baton away h.spin times
+			for i := 0; i < h.spin; i++ {
+				select {
+				case <-never:
+				default:
+				}
+			}
+		} else {
 			for i := 0; i < 50; i++ {
 				runtime.Gosched()
 			}
@@ -257,7 +276,7 @@ func VerifB21cExecute() {
 	vt.Assert(IsCyclical(eAB) && IsCyclical(eBA), "the edges between the cycle members are not cyclical")
 	vt.Assert(!IsCyclical(eAU) && !IsCyclical(eBU), "an edge to the terminal type is cyclical")
 
-	h := &verifB21cEnv{succ: verifB21cGraph(vt.Param("graph", "chain"))}
+	h := &verifB21cEnv{succ: verifB21cGraph(vt.Param("graph", "chain")), spin: vt.ParamInt("spin", 40)}
 	h.cancelAt = vt.Choose("cancel-at-event", vt.ParamInt("cancel", 0)+1) // 0: never
 	h.holdAt = vt.Choose("hold-at-event", vt.ParamInt("hold", 0)+1)
 	h.panicAt = vt.Choose("panic-at-call", vt.ParamInt("panic", 0)+1)
@@ -290,8 +309,9 @@ func VerifB21cExecute() {
 		input := NewChannelMedium(inEdges[i], 1) // NewStandardMedium
 		h.inputs = append(h.inputs, input)
 		w.Listen(input)
-		if vt.ForkBool("input-" + string(rune('A'+i))) {
-			v := i // A is given v0, B v1
+		// 0: no message; A may be given v0, B v0 or v1
+		if c := vt.Choose("input-"+string(rune('A'+i)), 2+i); c > 0 {
+			v := c - 1
 			initial[i] = []int{v}
 			msg := Message{Value: []string{verifB21cNames[v]}}
 			h.instrument(&msg, nil)
@@ -383,6 +403,12 @@ func VerifB21cExecute() {
 	}
 	if h.panicked {
 		vt.Reach("interpreter-panicked")
+	}
+	if stopped {
+		vt.Reach("consumer-stopped-early")
+	}
+	if n := vt.ParamInt("evmax", 0); n > 0 { // probe: how many events a run has (to choose the cancel/hold bounds)
+		vt.Assert(h.events <= n, "probe: more events than evmax")
 	}
 	vt.Assert(returned == 2, "a worker's Execute did not return normally")
 	if h.panicked {
